@@ -35,6 +35,22 @@ def variants(p, lm):
         raise Fail("option-not-passed-through", f"labelmsm={lm!r}: static parser result differs from RTCMMessage(payload, labelmsm)")
     if pub(RTCMReader.parse(f, validate=0, labelmsm=lm)) != pa:
         raise Fail("option-not-passed-through", f"labelmsm={lm!r}: static parser with validate=0 differs from RTCMMessage(payload, labelmsm)")
+    # the same bytes handed over in another container (bytearray, memoryview), and the frame followed by further bytes
+    # with validation off: whether the library accepts such input is not this property's business, but if it returns
+    # a message for the same MSM payload, the option given decides the labels there as everywhere else
+    for what, call in (
+        ("RTCMReader.parse(bytearray(frame))", lambda: RTCMReader.parse(bytearray(f), labelmsm=lm)),
+        ("RTCMReader.parse(memoryview(frame))", lambda: RTCMReader.parse(memoryview(f), labelmsm=lm)),
+        ("RTCMMessage(payload=bytearray(payload))", lambda: RTCMMessage(payload=bytearray(p), labelmsm=lm)),
+        ("RTCMReader.parse(frame + 2 more bytes, validate=0)", lambda: RTCMReader.parse(f + b"\x00\x00", validate=0, labelmsm=lm)),
+        ("RTCMReader.parse(frame + frame, validate=0)", lambda: RTCMReader.parse(f + f, validate=0, labelmsm=lm)),
+    ):
+        try:
+            alt = call()
+        except Exception:  # pylint: disable=broad-except
+            continue
+        if alt is not None and getattr(alt, "identity", None) == a.identity and [(k, v) for k, v in pub(alt) if k.startswith("CELLSIG")] != [(k, v) for k, v in pa if k.startswith("CELLSIG")]:
+            raise Fail("option-not-passed-through", f"labelmsm={lm!r}: {what} labels the signals differently from RTCMMessage(payload, labelmsm)")
     if lm == 1:
         # the RINEX codes are the documented default of every entry point: leaving the option out is the same as 1
         dflt = [("RTCMMessage(payload)", RTCMMessage(payload=p)), ("RTCMReader.parse(frame)", RTCMReader.parse(f)), ("RTCMReader.parse(frame, validate=0)", RTCMReader.parse(f, validate=0))]
